@@ -2,7 +2,7 @@
 `select=` and evaluated independently on the model."""
 import numpy as np
 
-from .ramses import KIND_IV0, TARGET, VALBASE, code_factor, family_of
+from .ramses import KIND_IV0, TARGET, VALBASE, code_factor, family_of, value_sign
 
 
 def level_accepts(spec, l):
@@ -64,7 +64,7 @@ def value_func(spec, world):
 
     var = spec["var"]
     fam = family_of(var)
-    if var.startswith("position"):
+    if var.startswith("position") or var == "dx":
         thr = spec["frac"] * world.boxlen * code_factor("length", world.unit_d, world.unit_l, world.unit_t)
     else:
         thr = spec["code"] * code_factor(fam, world.unit_d, world.unit_l, world.unit_t)
@@ -81,13 +81,17 @@ def value_func(spec, world):
 
 def value_accepts(spec, world, cell):
     var = spec["var"]
-    if var.startswith("position"):
+    if var == "dx":
+        x = cell["dx"] / world.boxlen
+        t = spec["frac"]
+    elif var.startswith("position"):
         d = "xyz".index(var[-1])
         x = cell["pos"][d] / world.boxlen
         t = spec["frac"]
     else:
         kind, iv = var_kind(world, var)
-        x = (KIND_IV0[kind] + iv + 1) * VALBASE + world.gid(cell["level"], cell["cidx"])
+        gid = world.gid(cell["level"], cell["cidx"])
+        x = value_sign(var, gid) * ((KIND_IV0[kind] + iv + 1) * VALBASE + gid)
         t = spec["code"]
     return {"gt": x > t, "lt": x < t, "ge": x >= t, "le": x <= t}[spec["op"]]
 
@@ -107,7 +111,16 @@ def gen_value_pred(rng, world_params, ncells_hint=64):
     iv = names.index(var)
     # gids run from 0 to (number of cells in the complete tree); pick inside the populated range
     g = rng.randrange(0, max(2, ncells_hint)) + 0.5
-    return {"var": var, "op": rng.choice(["gt", "lt", "ge", "le"]), "code": float((KIND_IV0["hydro"] + iv + 1) * VALBASE + g)}
+    code = float((KIND_IV0["hydro"] + iv + 1) * VALBASE + g)
+    if value_sign(var, 1) < 0 and rng.random() < 0.4:
+        code = -code  # a threshold among the negative values of a signed quantity
+    return {"var": var, "op": rng.choice(["gt", "lt", "ge", "le"]), "code": code}
+
+
+def gen_dx_pred(rng, levelmin, levelmax):
+    """A predicate on the cell size; the threshold lies between the sizes of two consecutive levels."""
+    k = rng.randrange(max(0, levelmin - 1), levelmax + 1)
+    return {"var": "dx", "op": rng.choice(["gt", "lt", "ge", "le"]), "frac": 0.5 ** (k + 0.5)}
 
 
 def gen_position_pred(rng, ndim):
